@@ -144,6 +144,37 @@ class Facts:
             self._dispatchers = out
         return self._dispatchers
 
+    # characteristic method names of the built-in families whose tables the interpreter builds
+    _FAMILY_MARKS = {"_make_array_method": ("push", "pop", "splice"), "_make_string_method": ("charAt", "indexOf"), "_make_number_method": ("toFixed",), "_make_typed_array_method": ("subarray",), "_make_regexp_method": ("exec", "test")}
+
+    def family_methods(self) -> Dict[str, str]:
+        """canonical family name -> name of the interpreter method that builds that family's method table today (found
+        by shape: it holds a dict display whose keys include the family's characteristic method names)."""
+        got = getattr(self, "_family_methods", None)
+        if got is not None:
+            return got
+        vmcls = self.vm_dispatcher()[0].cls
+        out: Dict[str, str] = {}
+        for canon, marks in self._FAMILY_MARKS.items():
+            for m in vmcls.all_methods:
+                if isinstance(m.node, ast.Lambda):
+                    continue
+                for d in m.own_nodes():
+                    if isinstance(d, ast.Dict) and set(marks) <= {k.value for k in d.keys if isinstance(k, ast.Constant)}:
+                        out[canon] = m.name
+            out.setdefault(canon, canon)
+        self._family_methods = out
+        return out
+
+    def canon_qual(self, qual: str) -> str:
+        """A qualified name with today's family builder names replaced by the canonical ones (keys of tables in the rules)."""
+        for canon, actual in self.family_methods().items():
+            if actual != canon:
+                qual = qual.replace(f".{actual}.", f".{canon}.").replace(f".{actual}:", f".{canon}:")
+                if qual.endswith("." + actual):
+                    qual = qual[: -len(actual)] + canon
+        return qual
+
     def vm_dispatcher(self) -> Tuple[Func, DispatchChain]:
         d = self.dispatchers()
         return max(d, key=lambda x: len(x[1].handled()))
